@@ -49,7 +49,7 @@ def _fn_ranges(bu):
     return out, lm
 
 
-def run_verus_unit(repo, unit_name, variant, workdir, log):
+def run_verus_unit(repo, unit_name, variant, workdir, log, only_fns=None):
     """Returns dict(status, obligations, discharged, failures[], functions[], ...)."""
     unit = importlib.import_module("units." + unit_name)
     vname = unit_name + ("" if not variant else "[" + ",".join("%s=%s" % kv for kv in sorted(variant.items())) + "]")
@@ -99,6 +99,12 @@ def run_verus_unit(repo, unit_name, variant, workdir, log):
     obl = {k: v for k, v in r["air_obligations"].items()}
     res["obligations_by_fn"] = obl
     res["obligation_labels"] = r["air_labels"]
+    all_fn_names = set(it.qualname() for it in bu.items if hasattr(it, "body_src"))
+    if only_fns is not None:
+        # count only the obligations of the listed functions and of items that are not extracted functions (lemmas)
+        obl = {k: v for k, v in obl.items() if k.split("::")[-1] in only_fns or k.split("::")[-1] not in all_fn_names}
+        res["obligations_by_fn"] = obl
+        res["functions"] = [f for f in res["functions"] if f.get("struct") or f.get("fn") in only_fns]
     total = sum(obl.values())
     failed_fns = [k for k, v in fr.items() if not v["success"]]
     res["obligations"] = total
@@ -163,6 +169,16 @@ def run_verus_unit(repo, unit_name, variant, workdir, log):
             "verifier_output": d["raw"],
         })
         failed_count += 1
+    if only_fns is not None:
+        # this property is carried only by the listed functions (and the lemmas/spec fns of the unit):
+        # failures in the unit's other functions belong to other properties and are not reported here
+        mine = [f for f in res["failures"] if f["function"] in only_fns or f["function"] is None or f["function"] not in all_fn_names]
+        other = [f for f in res["failures"] if f not in mine]
+        res["failures_in_other_properties"] = [f["obligation"] for f in other]
+        res["failures"] = mine
+        failed_count = len(mine)
+        if not mine:
+            res["status"] = "pass"
     res["discharged"] = max(0, total - failed_count)
     res["generated_file"] = r["src"]
     return res
@@ -232,9 +248,11 @@ def main(argv=None):
     canaries = []
     rc = 0
     try:
-        for unit_name, variant in spec.get("verus", []):
-            log("[verus] unit %s %s" % (unit_name, variant or ""))
-            r = run_verus_unit(repo, unit_name, variant, workdir, log)
+        for ent in spec.get("verus", []):
+            unit_name, variant = ent[0], ent[1]
+            only_fns = ent[2] if len(ent) > 2 else None
+            log("[verus] unit %s %s %s" % (unit_name, variant or "", only_fns or ""))
+            r = run_verus_unit(repo, unit_name, variant, workdir, log, only_fns)
             results.append(r)
             log("  -> %s  obligations=%s discharged=%s  %.1fs" % (r["status"], r.get("obligations"), r.get("discharged"), r.get("wall_s", 0)))
             if r["status"] == "pass":
